@@ -50,6 +50,7 @@ type Scenario struct {
 	CRLF           bool     `json:"crlf,omitempty"`
 	BOM            bool     `json:"bom,omitempty"`       // the file (and its comment-free form) starts with a UTF-8 byte order mark
 	MixedEOL       uint64   `json:"mixed_eol,omitempty"` // != 0: every line end is LF or CRLF, chosen per line from this seed
+	BareCR         bool     `json:"bare_cr,omitempty"`   // lone CR line ends (the grammar accepts them): the whole file without MixedEOL, some lines with it
 	NoFinalNL      bool     `json:"no_final_nl,omitempty"`
 	Bulk           int      `json:"bulk,omitempty"`       // >0: blocks of this many own-line comment lines are inserted (large files)
 	Light          bool     `json:"light,omitempty"`      // no very long comments (used with -d, whose parser trace is enormous)
@@ -240,6 +241,8 @@ func (s *Scenario) materialise0() (src []byte, plain []byte) {
 	nl := "\n"
 	if s.CRLF {
 		nl = "\r\n"
+	} else if s.BareCR {
+		nl = "\r"
 	}
 	join := func(ls [][]byte) []byte {
 		var b bytes.Buffer
@@ -247,8 +250,10 @@ func (s *Scenario) materialise0() (src []byte, plain []byte) {
 			b.Write(l)
 			if i < len(ls)-1 || !s.NoFinalNL {
 				if s.MixedEOL != 0 { // per-line choice, the same for the commented and the comment-free file
-					if splitmix64(s.MixedEOL+uint64(i))%3 == 0 {
+					if h := splitmix64(s.MixedEOL + uint64(i)); h%3 == 0 {
 						b.WriteString("\r\n")
+					} else if s.BareCR && (h>>8)%3 == 0 {
+						b.WriteString("\r")
 					} else {
 						b.WriteString("\n")
 					}
